@@ -39,10 +39,13 @@ class CallMixin:
             if name in ("old", "implies", "result", "use", "hint", "iff", "fresh_ref", "subset", "union", "setminus", "mapdom",
                         "singleton", "setadd", "setdel", "mapset", "mapdel", "seqlen", "issub", "isinst", "typeof", "ite", "mapget",
                         "emptyset", "length", "inter", "exc_is", "some", "unopt", "isnone", "const", "cast", "elems", "distinct",
-                        "str_init", "str_last", "str_first", "has", "aslist", "inside", "confined", "rec_has", "rec_get", "rec_set"):
+                        "str_init", "str_last", "str_first", "has", "aslist", "inside", "confined", "rec_has", "rec_get", "rec_set", "log_count", "log_arg", "module"):
                 return Callable_("dslfn", name)
         mod = env.get("__mod__")
         if mod is not None:
+            md = dsl.REG.classes.get("module:" + mod.name)
+            if md is not None and name in md.fields:
+                return self.heap_read(st, self.module_ref(mod.name), name)
             if name in mod.functions:
                 return Callable_("function", mod.name + "." + name)
             if name in mod.classes:
@@ -83,6 +86,10 @@ class CallMixin:
         if name in ("True", "False"):
             return mk_bool(name == "True")
         raise Unsupported("unresolved name %s" % name, node)
+
+    def module_ref(self, modname):
+        """the singleton pseudo-object holding a module's mutable globals"""
+        return Val(TRef("module:" + modname), [z3.IntVal(-(abs(hash(modname)) % 1000) - 1)])
 
     def module_const(self, mod, name):
         key = (mod.name, name)
@@ -177,7 +184,10 @@ class CallMixin:
         owner, fty = self.field_owner(ref.ty.cls, field)
         if owner is None:
             raise Unsupported("assignment to undeclared field %s.%s" % (ref.ty.cls, field), node)
-        value = coerce(value, fty)
+        try:
+            value = coerce(value, fty)
+        except TypeError as e:
+            raise Unsupported("assignment to field %s.%s: %s" % (ref.ty.cls, field, e), node)
         key, arrs = self.heap_arrays(st, owner, field, fty)
         st.heap[key] = [z3.Store(a, ref.t, t) for a, t in zip(arrs, value.terms)]
         st.written.add(key)
@@ -343,6 +353,10 @@ class CallMixin:
 
     def call_external(self, name, args, kwargs, st, node):
         decl = dsl.REG.contracts.get(name)
+        op = self.opaque_spec(name.split(".")[-1], name)
+        if decl is None and op is not None:
+            yield st, self.opaque_call(op[0], name, args, kwargs, st, node)
+            return
         if decl is None:
             raise Unsupported("un-contracted external call %s" % name, node)
         yield from self.apply_contract(decl, args, kwargs, st, node, None)
@@ -399,7 +413,10 @@ class CallMixin:
             raise Unsupported("method %s.%s not found" % (clsname, meth), node)
         qn = cinfo.module.name + "." + cinfo.name + "." + meth
         kind = cinfo.kinds.get(meth)
-        full_args = args if kind == "staticmethod" else [obj] + args
+        if kind == "classmethod":
+            full_args = [Callable_("class", cinfo.name)] + args
+        else:
+            full_args = args if kind == "staticmethod" else [obj] + args
         yield from self.call_repo(qn, fdef, cinfo.module, cinfo, full_args, kwargs, st, node)
 
     def call_repo(self, qualname, fdef, mod, cinfo, args, kwargs, st, node):
@@ -407,10 +424,47 @@ class CallMixin:
         if decl is not None and not (qualname in dsl.REG.inline):
             yield from self.apply_contract(decl, args, kwargs, st, node, (fdef, mod, cinfo))
             return
-        if qualname in dsl.REG.inline or fdef.name == "__init__":
+        if qualname in dsl.REG.inline or (fdef.name == "__init__" and not self.opaque_spec(fdef.name, qualname)):
             yield from self.call_inline(qualname, fdef, mod, cinfo, args, kwargs, st, node)
             return
+        op = self.opaque_spec(fdef.name, qualname)
+        if op is not None:
+            yield st, self.opaque_call(op[0], qualname, args, kwargs, st, node)
+            return
+        if cinfo is not None:
+            for n in self.class_decl_chain(cinfo.name):
+                key = "%s.%s" % (n, fdef.name)
+                if key in dsl.REG.interfaces:
+                    self.note_assumption("%s is used through the interface contract %s (its refinement is not proved here)" % (qualname, key))
+                    yield from self.apply_contract(dsl.REG.interfaces[key], args, kwargs, st, node, None)
+                    return
         raise Unsupported("call of un-contracted repository function %s" % qualname, node)
+
+    def opaque_spec(self, name, qualname):
+        """slice verification: callees the contract of the current FUC declares opaque (frame: nothing modelled changes)"""
+        if self.cur_ci is None:
+            return None
+        table = self.cur_ci.decl.opts.get("opaque") or {}
+        for k in (qualname, ".".join(qualname.split(".")[-2:]), name):
+            if k in table:
+                return (table[k],)
+        return None
+
+    def opaque_call(self, spec, qualname, args, kwargs, st, node):
+        self.note_assumption("slice: %s is opaque here (returns an arbitrary value of its declared type, changes no modelled state)" % qualname)
+        if spec == "self" or spec == "arg0":
+            return args[0]
+        if spec == "arg1":
+            return args[1]
+        if isinstance(spec, Ty):
+            if isinstance(spec, TNone):
+                return NONE
+            v = fresh(spec, "opq_" + qualname.split(".")[-1])
+            if isinstance(spec, TRef):
+                st.axiom(z3.Select(st.alloc, v.t))
+                self.assume_type(st, v)
+            return v
+        raise Unsupported("opaque spec for %s" % qualname, node)
 
     def bind_params(self, fdef, args, kwargs, st, node, mod=None):
         """Bind call arguments to parameters; defaults are evaluated in the function's module.
@@ -562,6 +616,8 @@ class CallMixin:
                 raise Unsupported("sorted(%r)" % x.ty, node)
         elif name == "bool":
             yield st, mk_bool(truth(args[0]))
+        elif name == "repr":
+            yield st, fresh(Str, "repr")
         elif name == "getattr":
             obj, nm = args[0], z3.simplify(args[1].t)
             if not (z3.is_string_value(nm) and isinstance(obj, Val) and isinstance(obj.ty, TRef)):
@@ -729,6 +785,10 @@ class CallMixin:
             return
         if isinstance(ty, TRec):
             yield from self.rec_method(obj, meth, args, kwargs, st, node, lv)
+            return
+        op = self.opaque_spec(meth, "?." + meth)
+        if op is not None:
+            yield st, self.opaque_call(op[0], "?." + meth, [obj] + args, kwargs, st, node)
             return
         raise Unsupported("method %s on %r" % (meth, ty), node)
 
